@@ -4,14 +4,15 @@
 (* elements removed; ancestor/self/cyclic use references are faults of the  *)
 (* use element.                                                             *)
 EXTENDS Rat, Sequences, TLC, FiniteSets
-CONSTANTS MaxTok, NFaults,
+CONSTANTS Full, MaxTok, NFaults,
           MinTok     \* faults are injected into documents of at least this many tokens (1 = all; larger in simulation mode)
-VARIABLES doc, faults, out
-vars == <<doc, faults, out>>
+VARIABLES doc, faults, out, cyc     \* cyc = the cyclic use elements of the closed document (faulty without any injected text)
+vars == <<doc, faults, out, cyc>>
 AF == INSTANCE Affine
 DF == INSTANCE DocFault
 I(n) == R(n)
 A(n) == <<"abs", I(n)>>
+Pc(n) == <<"pct", I(n)>>
 NoL == <<"none", RZero>>
 MyTF(k) == CASE k = 0 -> AF!Id [] k = 1 -> AF!Translate(I(10), I(20)) [] k = 2 -> AF!Scale(I(2), I(3)) [] k = 3 -> AF!Rotate(I(0), I(1))
              [] k = 4 -> AF!Skew(Q(3, 4), RZero) [] k = 5 -> AF!Scale(I(-1), I(1)) [] k = 6 -> AF!Then(AF!Scale(I(2), I(3)), AF!Rotate(Q(3, 5), Q(4, 5)))
@@ -27,12 +28,18 @@ E0 == <<"end", "", 0, FALSE, <<>>, <<>>>>
 Tok(tag, id, tf, geo) == <<tag, id, tf, FALSE, geo, <<>>>>
 Root == Tok("svg", "root", 0, <<NoL, NoL, A(200), A(100), <<I(0), I(0), I(100), I(50)>>, <<"xMidYMid", "">>>>)
 \* every token has an id; a token may occur once per document (ids stay unique)
-Opens == { Tok("g", "g1", 1, <<>>), Tok("g", "g2", 3, <<>>), Tok("defs", "d1", 0, <<>>),
-           Tok("svg", "s1", 0, <<A(20), A(10), A(80), A(40), <<I(0), I(0), I(40), I(40)>>, <<"xMinYMax", "slice">>>>) }
-Leaves == { Tok("rect", "r1", 0, <<A(1), A(2), A(30), A(40), NoL, NoL>>), Tok("rect", "r2", 2, <<A(5), A(5), A(10), A(10), A(2), NoL>>),
-            Tok("circle", "c1", 4, <<A(5), A(6), A(7)>>), Tok("path", "p1", 5, <<1>>), Tok("polyline", "l1", 0, <<P(0, 0), P(3, 4), P(6, 1)>>),
-            Tok("image", "i1", 0, <<A(1), A(1), A(8), A(8)>>),
-            Tok("use", "u1", 0, <<"g1", A(10), A(20)>>), Tok("use", "u2", 1, <<"r1", NoL, NoL>>), Tok("use", "u3", 0, <<"c1", A(3), NoL>>) }
+OpensCore == { Tok("g", "g1", 1, <<>>), Tok("defs", "d1", 0, <<>>),
+               Tok("svg", "s1", 0, <<A(20), A(10), A(80), A(40), <<I(0), I(0), I(40), I(40)>>, <<"xMinYMax", "slice">>>>) }
+Opens == OpensCore \cup (IF Full THEN { Tok("g", "g2", 3, <<>>) } ELSE {})
+LeavesCore == { Tok("rect", "r1", 0, <<A(1), A(2), A(30), A(40), NoL, NoL>>),
+                Tok("circle", "c1", 4, <<A(5), A(6), A(7)>>), Tok("path", "p1", 5, <<1>>),
+                Tok("image", "i1", 0, <<A(1), A(1), A(8), A(8)>>),
+                Tok("use", "u1", 0, <<"g1", A(10), A(20)>>), Tok("use", "u2", 1, <<"r1", NoL, NoL>>),
+                \* percentages: resolved against the nearest viewport, which a faulty sibling svg must not disturb
+                Tok("rect", "r3", 0, <<Pc(10), Pc(10), Pc(50), Pc(50), NoL, NoL>>) }
+Leaves == LeavesCore \cup
+          (IF Full THEN { Tok("rect", "r2", 2, <<A(5), A(5), A(10), A(10), A(2), NoL>>), Tok("polyline", "l1", 0, <<P(0, 0), P(3, 4), P(6, 1)>>),
+                          Tok("use", "u3", 0, <<"c1", A(3), NoL>>), Tok("use", "u4", 0, <<"g2", NoL, A(5)>>) } ELSE {})
 Close(d) == d \o [k \in 1..DepthAt(d, Len(d)) |-> E0]
 Ids(d) == {d[i][2] : i \in 1..Len(d)}
 
@@ -46,15 +53,32 @@ Ancestors(d, i) == AncFrom(d, 1, i, <<>>)
 \* a use whose target is itself or one of its ancestors can only be written as a fault (href_self / href_ancestor)
 Cyclic(d, i) == d[i][1] = "use" /\ \E a \in Ancestors(d, i) : d[a][2] = d[i][5][1]
 
+\* the reference rendering: the document without the faulty elements (injected faults and cyclic uses)
+Ref(d, fs) == LET F == {fs[j][1] : j \in 1..Len(fs)} \cup DF!CyclicUses(Close(d))
+              IN IF 1 \in F THEN <<>> ELSE RenderDoc(DF!RemoveAll(Close(d), F), <<<<>>, <<>>, 0>>, <<>>)
+SetSeq(S) == LET RECURSIVE ss(_) ss(T) == IF T = {} THEN <<>> ELSE LET m == CHOOSE x \in T : \A y \in T : x <= y IN <<m>> \o ss(T \ {m}) IN ss(S)
+\* hand-made reference cycles (longer than the exhaustive bound allows): mutual 2-cycle with bystanders, 3-cycle through a
+\* nested svg, two uses of two ancestors, a bystander use of a group that contains a cyclic use
+U(id, target) == Tok("use", id, 0, <<target, NoL, NoL>>)
+G1 == Tok("g", "g1", 1, <<>>)   G2 == Tok("g", "g2", 3, <<>>)
+S1 == Tok("svg", "s1", 0, <<A(20), A(10), A(80), A(40), <<I(0), I(0), I(40), I(40)>>, <<"xMinYMax", "slice">>>>)
+R1 == Tok("rect", "r1", 0, <<A(1), A(2), A(30), A(40), NoL, NoL>>)
+C1 == Tok("circle", "c1", 4, <<A(5), A(6), A(7)>>)
+L1 == Tok("polyline", "l1", 0, <<P(0, 0), P(3, 4), P(6, 1)>>)
+CycleSeeds == { <<Root, G1, U("u4", "g2"), R1, E0, C1, G2, U("u1", "g1"), E0, L1>>,
+                <<Root, G1, U("u4", "g2"), E0, G2, U("u5", "s1"), R1, E0, S1, U("u1", "g1"), C1, E0, L1>>,
+                <<Root, G1, G2, U("u1", "g1"), U("u4", "g2"), R1, E0, E0, C1>>,
+                <<Root, G1, U("u4", "g2"), R1, E0, G2, U("u1", "g1"), E0, U("u6", "g1"), L1>>,
+                <<Root, U("u1", "g1"), G1, U("u4", "g2"), E0, G2, U("u6", "g1"), C1, E0, R1>> }
 Build == /\ faults = <<>> /\ Len(doc) < MaxTok
          /\ \E t \in Opens \cup Leaves \cup {E0} :
               /\ t = E0 => DepthAt(doc, Len(doc)) > 1
               /\ t \in Opens => DepthAt(doc, Len(doc)) < 3
               /\ t # E0 => t[2] \notin Ids(doc)
               /\ doc' = Append(doc, t)
-              /\ ~Cyclic(doc', Len(doc'))
          /\ UNCHANGED faults
-         /\ out' = RenderDoc(Close(doc'), <<<<>>, <<>>, 0>>, <<>>)
+         /\ out' = Ref(doc', faults)
+         /\ cyc' = SetSeq(DF!CyclicUses(Close(doc')))
 \* inject a fault into element i (kept sorted by index); the root may be faulty too: then nothing is required to render
 Inject == /\ Len(faults) < NFaults /\ Len(doc) >= MinTok
           /\ \E i \in 1..Len(doc) : \E k \in DF!FaultsOf(doc[i]) :
@@ -62,15 +86,16 @@ Inject == /\ Len(faults) < NFaults /\ Len(doc) >= MinTok
                /\ (IF faults = <<>> THEN TRUE ELSE faults[Len(faults)][1] < i)
                /\ (IF k = "href_ancestor" THEN Ancestors(Close(doc), i) \ {1} # {} ELSE TRUE)
                /\ faults' = Append(faults, <<i, k>>)
-               /\ out' = LET F == {faults'[j][1] : j \in 1..Len(faults')}
-                             rd == DF!RemoveAll(Close(doc), F)
-                         IN IF 1 \in F THEN <<>> ELSE RenderDoc(rd, <<<<>>, <<>>, 0>>, <<>>)
-          /\ UNCHANGED doc
-Init == doc = <<Root>> /\ faults = <<>> /\ out = RenderDoc(Close(doc), <<<<>>, <<>>, 0>>, <<>>)
+               /\ out' = Ref(doc, faults')
+          /\ UNCHANGED <<doc, cyc>>
+Init == /\ doc \in {<<Root>>} \cup CycleSeeds /\ faults = <<>> /\ out = Ref(doc, <<>>)
+        /\ cyc = SetSeq(DF!CyclicUses(Close(doc)))
 Next == Build \/ Inject
 \* simulation mode: deeper documents, up to NFaults faults
-Emit == faults # <<>> => PrintT(<<"CASE", doc, faults, out>>)
+Emit == (faults # <<>> \/ cyc # <<>>) => PrintT(<<"CASE", doc, faults, out, cyc>>)
 \* removing faulty elements keeps the document well formed, and what is rendered then is part of what the fault-free document renders or depends on removed definitions
 RemovedIsBalanced == (faults # <<>> /\ faults[1][1] # 1) =>
-     Balanced(DF!RemoveAll(Close(doc), {faults[j][1] : j \in 1..Len(faults)}))
+     Balanced(DF!RemoveAll(Close(doc), {faults[j][1] : j \in 1..Len(faults)} \cup DF!CyclicUses(Close(doc))))
+\* every hand-made seed does contain a cycle, and a document whose uses all point forward/outward to plain shapes has none
+SeedsAreCyclic == \A d \in CycleSeeds : DF!CyclicUses(Close(d)) # {}
 =============================================================================
